@@ -20,6 +20,7 @@ class random_dictator_step:
     returns = Profile
     forall = dict(k=Seq(CSet))
     pure_unless = "store_states"
+    modifies = ("election_states",)  # the frame callers rely on: every other field keeps its entry value (obligation frame[self.<f> unchanged])
 
     def requires(self, profile, prev_state, store_states):
         return (len(profile.ballots) > 0 and wsum(profile.ballots, len(profile.ballots)) > 0
